@@ -6,7 +6,7 @@ from core import log
 # ----------------------------------------------------------------------------- design models
 def d_tlc(name, module, cfg, dom, subdir="mc", expect="ok", thorough_only=False, workers=6):
     def runit(d, tier):
-        r = core.tlc_model_dir(subdir, module, cfg, dom, workers=workers, timeout=1500)
+        r = core.tlc_model_dir(subdir, module, cfg, dom, workers=workers, timeout=3000)
         if expect == "violated":
             res = "refuted-as-expected" if r["violated"] else "unexpectedly-holds"
             return dict(result=res, states=r["states"], transitions=r["transitions"],
@@ -91,7 +91,9 @@ DESIGNS = {
     "C07": [D_SEM] + D_EUCLID, "C09": D_FMT,
     "C08": [d_tlc("MC_Parse: tokeniser as coded = grammar, every string up to length 5 over 10 symbols x 4 radices", "MC_Parse",
                   "MC_Parse_5.cfg", "int")], "C11": D_MUL[2:6], "C18": D_WRAPVM,
-    "C13": [d_mathalg("C13", "sqrt")], "C14": [d_mathalg("C14", "log2, ln")], "C15": [d_mathalg("C15", "exp, powi"), D_MATHALG_REFUTE],
+    "C13": [d_mathalg("C13", "sqrt")], "C14": [d_mathalg("C14", "log2, ln")], "C15": [d_mathalg("C15", "exp, powi"), D_MATHALG_REFUTE,
+            d_tlc("MC_MathAlg (pow): exp(y ln x) as transcribed meets PowOk / TotalOk / WorkOk for every base and exponents "
+                  "-2.5 .. 3 on the same layouts", "MC_MathAlg", "MC_MathAlg_pow.cfg", "big", workers=8, thorough_only=True)],
 }
 
 
@@ -427,7 +429,7 @@ def plan_growth(pid, tier, seed):
                          "converted value and is given only for layout pairs where no source value can overflow",
                     assumptions=["not one of the 18 listed properties", "the half crate's from_bits / to_bits are trusted"])
     if pid == "G06":
-        fns = "sqrt,log2,ln,exp,powi"
+        fns = "sqrt,log2,ln,exp,pow,powi"
         gens = [dict(name="af_math", profile="unchecked", bin="math", dom="big", per_shard=300,
                      args=["--topic", fns, "--tier", tier, "--seed", str(seed)]),
                 dict(name="af_sweep", profile="unchecked", bin="mathsweep", dom="big", per_shard=300,
